@@ -1,72 +1,97 @@
 #!/usr/bin/env python3
-"""Runs every registered check (quick tier) against every confirmed seeded change, in a scratch
-copy (worktree of /repo under /tmp/sm/repo, copy of vmc under /tmp/sm/vmc), so that /repo and
-/verif are never touched. Writes /verif/seeded/MATRIX.json and each seed's meta.json:detected_by.
-usage: seedmatrix.py [seed-name ...]"""
-import json, os, subprocess, sys, shutil, time
+"""Runs every registered check (quick tier) against every confirmed seeded change, in scratch
+copies (worktrees of /repo under /tmp/sm/w<k>/repo, copies of vmc under /tmp/sm/w<k>/vmc), so
+that /repo and /verif are never touched. Writes /verif/seeded/MATRIX.json and each seed's
+meta.json:detected_by. Scratch directories are removed at the end.
+usage: seedmatrix.py [-j N] [seed-name ...]"""
+import json, os, subprocess, sys, shutil, time, threading
 
 SM = "/tmp/sm"
-ENV = dict(os.environ, CARGO_NET_OFFLINE="true", VERIF_ROOT=SM + "/root")
+lock = threading.Lock()
 
-def sh(cmd, cwd=None, timeout=3600):
-    p = subprocess.run(cmd, shell=True, executable="/bin/bash", cwd=cwd, env=ENV, capture_output=True, text=True, timeout=timeout)
+def sh(cmd, cwd=None, env=None, timeout=3600):
+    p = subprocess.run(cmd, shell=True, executable="/bin/bash", cwd=cwd, env=env, capture_output=True, text=True, timeout=timeout)
     return p.returncode, p.stdout + p.stderr
 
-def main():
-    os.makedirs(SM + "/root", exist_ok=True)
-    if not os.path.isdir(SM + "/repo"):
-        rc, o = sh(f"git -C /repo worktree add --detach {SM}/repo main")
+def worker(k, queue, checks, matrix):
+    W = f"{SM}/w{k}"
+    env = dict(os.environ, CARGO_NET_OFFLINE="true", VERIF_ROOT=W + "/root")
+    os.makedirs(W + "/root", exist_ok=True)
+    if not os.path.isdir(W + "/repo"):
+        rc, o = sh(f"git -C /repo worktree add --detach {W}/repo main")
         assert rc == 0, o
-    sh("git checkout -q --detach main && git reset -q --hard && git clean -fdq", cwd=SM + "/repo")
-    shutil.copy("/repo/Cargo.lock", SM + "/repo/Cargo.lock")
-    sh(f"rsync -a --delete --exclude target /verif/vmc/ {SM}/vmc/")
-    sh(f"sed -i 's|/repo/|{SM}/repo/|g' {SM}/vmc/Cargo.toml")
-    shutil.copy("/verif/known_findings.jsonl", SM + "/root/known_findings.jsonl")
-    checks = [c["property_id"] for c in json.load(open("/verif/MANIFEST.json"))["checks"]]
-    seeds = sys.argv[1:] or sorted(d for d in os.listdir("/verif/seeded") if os.path.isdir(f"/verif/seeded/{d}"))
-    matrix = {}
-    if os.path.exists("/verif/seeded/MATRIX.json"):
-        matrix = json.load(open("/verif/seeded/MATRIX.json"))
-    # baseline must be clean
-    rc, o = sh("cargo build --release --offline 2>&1 | tail -3", cwd=SM + "/vmc")
+    sh("git checkout -q --detach main && git reset -q --hard && git clean -fdq", cwd=W + "/repo")
+    shutil.copy("/repo/Cargo.lock", W + "/repo/Cargo.lock")
+    sh(f"rsync -a --delete --exclude target /verif/vmc/ {W}/vmc/")
+    sh(f"sed -i 's|/repo/|{W}/repo/|g' {W}/vmc/Cargo.toml")
+    shutil.copy("/verif/known_findings.jsonl", W + "/root/known_findings.jsonl")
+    rc, o = sh("cargo build --release --offline 2>&1 | tail -3", cwd=W + "/vmc", env=env)
     base = {}
     for c in checks:
-        rc, o = sh(f"ulimit -n 20000; ./target/release/vmc check {c} --tier quick", cwd=SM + "/vmc")
-        base[c] = rc
-    print("baseline:", base, flush=True)
-    for s in seeds:
-        patch = f"/verif/seeded/{s}/patch.diff"
-        rc, o = sh(f"git apply --check {patch}", cwd=SM + "/repo")
+        rc, o = sh(f"ulimit -n 20000; ./target/release/vmc check {c} --tier quick", cwd=W + "/vmc", env=env)
         if rc != 0:
-            print(f"{s}: PATCH DOES NOT APPLY to current HEAD", flush=True)
-            matrix[s] = {"error": "patch does not apply to current HEAD"}
+            base[c] = rc
+    with lock:
+        print(f"worker {k}: baseline non-zero exits: {base}", flush=True)
+    while True:
+        with lock:
+            if not queue:
+                break
+            s = queue.pop(0)
+        patch = f"/verif/seeded/{s}/patch.diff"
+        rc, o = sh(f"git apply --check {patch}", cwd=W + "/repo")
+        if rc != 0:
+            with lock:
+                print(f"{s}: PATCH DOES NOT APPLY to current HEAD", flush=True)
+                matrix[s] = {"error": "patch does not apply to current HEAD"}
             continue
-        sh(f"git apply {patch}", cwd=SM + "/repo")
-        rc, o = sh("cargo build --release --offline 2>&1 | tail -5", cwd=SM + "/vmc")
+        sh(f"git apply {patch}", cwd=W + "/repo")
+        rc, o = sh("cargo build --release --offline 2>&1 | tail -5", cwd=W + "/vmc", env=env)
         row = {}
-        if "error" in o and "Finished" not in o:
+        if "Finished" not in o:
             row = {"error": "build failed: " + o[-200:]}
         else:
             for c in checks:
-                t = time.time()
-                rc, o = sh(f"ulimit -n 20000; timeout 300 ./target/release/vmc check {c} --tier quick", cwd=SM + "/vmc")
-                sig = ""
+                rc, o = sh(f"ulimit -n 20000; timeout 600 ./target/release/vmc check {c} --tier quick", cwd=W + "/vmc", env=env)
+                sigs = []
                 for line in o.splitlines():
                     if "signature:" in line:
-                        sig = line.split("signature:")[1].strip()
-                        break
+                        sg = line.split("signature:")[1].strip()
+                        if sg not in sigs:
+                            sigs.append(sg)
                 if rc != 0:
-                    row[c] = {"exit": rc, "signature": sig}
-        sh("git reset -q --hard", cwd=SM + "/repo")
-        matrix[s] = row
-        det = sorted(k for k, v in row.items() if isinstance(v, dict) and v.get("exit") == 1)
-        print(f"{s}: detected by {det} {[row[k]['signature'] for k in det][:2]}" + ("" if det else "   <<<<<< MISSED") + (f" other={ {k:v for k,v in row.items() if k not in det} }" if any(k not in det for k in row) else ""), flush=True)
-        mp = f"/verif/seeded/{s}/meta.json"
-        m = json.load(open(mp))
-        m["detected_by"] = [{"check": k, "signature": row[k]["signature"]} for k in det]
-        json.dump(m, open(mp, "w"), indent=1)
-        json.dump(matrix, open("/verif/seeded/MATRIX.json", "w"), indent=1, sort_keys=True)
-    shutil.rmtree(SM + "/root/replays", ignore_errors=True)
+                    row[c] = {"exit": rc, "signature": sigs[0] if sigs else "", "signatures": sigs[:6]}
+        sh("git reset -q --hard", cwd=W + "/repo")
+        det = sorted(kk for kk, v in row.items() if isinstance(v, dict) and v.get("exit") == 1)
+        with lock:
+            matrix[s] = row
+            print(f"{s}: detected by {det} {[row[kk]['signature'] for kk in det][:3]}" + ("" if det else "   <<<<<< MISSED") + (f" other={ {kk:v for kk,v in row.items() if kk not in det} }" if any(kk not in det for kk in row) else ""), flush=True)
+            mp = f"/verif/seeded/{s}/meta.json"
+            m = json.load(open(mp))
+            m["detected_by"] = [{"check": kk, "signature": row[kk]["signature"]} for kk in det]
+            json.dump(m, open(mp, "w"), indent=1)
+            json.dump(matrix, open("/verif/seeded/MATRIX.json", "w"), indent=1, sort_keys=True)
+    sh(f"git -C /repo worktree remove --force {W}/repo")
+    shutil.rmtree(W, ignore_errors=True)
+
+def main():
+    args = sys.argv[1:]
+    j = 1
+    if args and args[0] == "-j":
+        j = int(args[1])
+        args = args[2:]
+    checks = [c["property_id"] for c in json.load(open("/verif/MANIFEST.json"))["checks"]]
+    seeds = args or sorted(d for d in os.listdir("/verif/seeded") if os.path.isdir(f"/verif/seeded/{d}"))
+    matrix = {}
+    if os.path.exists("/verif/seeded/MATRIX.json"):
+        matrix = json.load(open("/verif/seeded/MATRIX.json"))
+    queue = list(seeds)
+    ts = [threading.Thread(target=worker, args=(k, queue, checks, matrix)) for k in range(j)]
+    for t in ts:
+        t.start()
+    for t in ts:
+        t.join()
+    sh("git -C /repo worktree prune")
 
 if __name__ == "__main__":
     main()
